@@ -19,10 +19,12 @@ import (
 )
 
 // Discovery exchanges of a udp server (round 8): every history up to the depth over
-//   ok        - DiscoveryRequest with a live context: request on the wire, one answer, context cancelled, call returns
-//   unsent    - DiscoveryRequest whose context has already ended: the datagram write is refused
-//   badaddr   - DiscoveryRequest to an address that does not resolve: refused before anything is registered
-//   reuse     - DiscoveryRequest re-using the token of the previous event (allowed once that exchange is over)
+//
+//	ok        - DiscoveryRequest with a live context: request on the wire, one answer, context cancelled, call returns
+//	unsent    - DiscoveryRequest whose context has already ended: the datagram write is refused
+//	badaddr   - DiscoveryRequest to an address that does not resolve: refused before anything is registered
+//	reuse     - DiscoveryRequest re-using the token of the previous event (allowed once that exchange is over)
+//
 // After every event the exchange is over: the server's multicast tables (token -> receiver, token -> stored request)
 // are empty again, whatever came before.
 func discoveryHistories(depth int) *mcx.Scenario {
